@@ -76,7 +76,7 @@ func c14Reply(q *faketc.Req) *wire.Msg {
 }
 
 func runC14(r *vc.Run, replay string) {
-	r.Rule = "cases = one per (scenario, caller): N in {2,8,64,512} concurrent SendSyncRequest callers under reply scripts {reverse, random permutation, sequential duplicates, back-to-back duplicates, drops (20 s timeout), unsolicited responses for unknown ids, phase-two requests with ids colliding with in-flight client ids, replies held across several heart-beats, reply after the caller's timeout (thorough), connection reset with requests pending}; each reply carries '<name>#<frame id>' so the response a caller got identifies the request it answers; after each scenario: pending futures, goroutines parked in response delivery, and a fresh request; distinct_nontrivial = distinct (script, N class, caller outcome) among callers whose request reached the TC"
+	r.Rule = "cases = one per (scenario, caller): N in {2,8,64,512} concurrent SendSyncRequest callers under reply scripts {reverse, random permutation, sequential duplicates, back-to-back duplicates, drops (20 s timeout), unsolicited responses for unknown ids, phase-two requests with ids colliding with in-flight client ids, replies held across several heart-beats, reply after the caller's timeout (thorough), connection reset with requests pending, and - on a client with two coordinator sessions - one session reset while requests are pending on the other}; each reply carries '<name>#<frame id>' so the response a caller got identifies the request it answers; after each scenario: pending futures, goroutines parked in response delivery, and a fresh request; distinct_nontrivial = distinct (script, N class, caller outcome) among callers whose request reached the TC"
 	r.Assumptions = []string{"the client child is built with -race; a race report whose accessing stacks all lie in the message-future code (GettyRemoting / GettyRemotingClient / message future) is a violation here, every other report is owned by C20 and only counted",
 		"quiescence is logical: all callers returned and a final round trip on the same session completed"}
 	if os.Getenv("VERIF_C14_ONLY") == "storm" {
@@ -185,6 +185,7 @@ func runC14(r *vc.Run, replay string) {
 		c14Quiesce(r, ch, ctl, "after-rst", true)
 	}
 	<-stormDone
+	c14TwoSessions(r, w)
 	if txt, inSeata, found := ch.PanicInfo(); found {
 		if inSeata {
 			r.Violate(&vc.Violation{Clause: "client-crash", Shape: "c14", Detail: "client process died from a panic inside seata-go: " + clipStr(txt, 1500)})
@@ -387,6 +388,142 @@ func c14Run(r *vc.Run, w *world.World, ch *vc.Child, ctl *c14Ctl, sc *c14Scenari
 			viol("lost-response", fmt.Sprintf("caller %s got error %q after %d ms although its response was sent", c.Name, clipStr(c.Err, 160), c.Ms))
 		} else if i := strings.Index(c.Err, "#"); i >= 0 && false {
 			_ = strconv.Itoa
+		}
+	}
+}
+
+// c14TwoSessions: a client with two coordinator sessions (the address is listed twice). Requests are in flight on
+// both; those on session A are answered, then A is reset; once the client has noticed (it reconnects), the requests
+// on the healthy session B are answered. Every caller must get its own response: losing one connection must not
+// take the answers of requests that travel on another one.
+func c14TwoSessions(r *vc.Run, w *world.World) {
+	ch, err := w.StartClient("c14-two", true, world.InitArg{Replace: map[string]string{w.TC.Addr: w.TC.Addr + ";" + w.TC.Addr}}, []string{"GORACE=halt_on_error=0"})
+	if err != nil {
+		r.Errorf("%v", err)
+		return
+	}
+	defer ch.Kill()
+	var mu sync.Mutex
+	held := map[string][]*faketc.Req{}
+	ids := map[string]uint32{}
+	w.TC.AddRule(&faketc.Rule{Name: "c14two", Match: func(q *faketc.Req) bool {
+		return q.Msg.Type == wire.TGlobalBegin && strings.HasPrefix(q.TxName, "c14two-")
+	}, Do: func(q *faketc.Req) bool {
+		mu.Lock()
+		defer mu.Unlock()
+		rd := strings.SplitN(q.TxName, "/", 2)[0]
+		held[rd] = append(held[rd], q)
+		ids[q.TxName] = q.Frame.ID
+		return true
+	}})
+	rounds := 4
+	if r.Tier == "thorough" {
+		rounds = 16
+	}
+	n := 12
+	for k := 0; k < rounds; k++ {
+		rd := fmt.Sprintf("c14two-%02d", k)
+		var names []string
+		for i := 0; i < n; i++ {
+			names = append(names, fmt.Sprintf("%s/%03d", rd, i))
+		}
+		var calls []c14Call
+		done := make(chan error, 1)
+		go func() { done <- ch.Call("rpc_burst", map[string]interface{}{"case": rd, "names": names}, &calls) }()
+		for t0 := time.Now(); time.Since(t0) < 30*time.Second; time.Sleep(5 * time.Millisecond) {
+			mu.Lock()
+			got := len(held[rd])
+			mu.Unlock()
+			if got >= n {
+				break
+			}
+		}
+		mu.Lock()
+		hs := append([]*faketc.Req{}, held[rd]...)
+		mu.Unlock()
+		var a *faketc.Session
+		onA, onB := 0, 0
+		if len(hs) > 0 {
+			a = hs[0].S
+		}
+		for _, q := range hs {
+			if q.S == a {
+				onA++
+			} else {
+				onB++
+			}
+		}
+		steered := len(hs) == n && onA > 0 && onB > 0
+		if steered {
+			for _, q := range hs {
+				if q.S == a {
+					q.S.Reply(q.Frame.ID, c14Reply(q))
+				}
+			}
+			time.Sleep(150 * time.Millisecond) // the answered callers return
+			mark := w.Clock.Now()
+			a.Kill(true)
+			// the client has noticed the loss when it comes back with a new connection
+			for t0 := time.Now(); time.Since(t0) < 8*time.Second; time.Sleep(10 * time.Millisecond) {
+				reopened := false
+				for _, e := range w.TC.EventsSince(mark) {
+					if e.Dir == "open" {
+						reopened = true
+					}
+				}
+				if reopened {
+					break
+				}
+			}
+			time.Sleep(100 * time.Millisecond)
+		}
+		for _, q := range hs {
+			if !steered || q.S != a {
+				q.S.Reply(q.Frame.ID, c14Reply(q))
+			}
+		}
+		select {
+		case err := <-done:
+			if err != nil {
+				r.Inconc(rd + ": " + err.Error())
+				continue
+			}
+		case <-time.After(60 * time.Second):
+			r.Violate(&vc.Violation{Clause: "caller-blocked", Shape: "two-sessions", Features: map[string]string{"script": "two-sessions"}, Detail: rd + ": callers did not return within 60 s"})
+			return
+		}
+		if !steered {
+			r.Inconc(fmt.Sprintf("%s: requests not spread over two sessions (%d held, %d / %d)", rd, len(hs), onA, onB))
+			for range calls {
+				r.Case("", nil)
+			}
+			continue
+		}
+		r.Count("two_session_rounds_steered", 1)
+		sessOf := map[string]string{}
+		for _, q := range hs {
+			sessOf[q.TxName] = map[bool]string{true: "closed-session(answered before the close)", false: "healthy-session"}[q.S == a]
+		}
+		for _, c := range calls {
+			mu.Lock()
+			id := ids[c.Name]
+			mu.Unlock()
+			outcome := "own-response"
+			if c.Err != "" || c.Panic != "" {
+				outcome = "error"
+			}
+			shape := fmt.Sprintf("two-sessions|%s|%s", sessOf[c.Name], outcome)
+			feat := map[string]string{"script": "two-sessions", "on": sessOf[c.Name]}
+			r.Case(shape, map[string]interface{}{"round": rd, "caller": c, "frame_id": id})
+			want := fmt.Sprintf("%s#%d", c.Name, id)
+			switch {
+			case c.Panic != "":
+				r.Violate(&vc.Violation{Clause: "caller-panic", Shape: shape, Features: feat, Detail: "SendSyncRequest panicked: " + clipStr(c.Panic, 300), History: c})
+			case c.Err != "":
+				r.Violate(&vc.Violation{Clause: "lost-response", Shape: shape, Features: feat, Detail: fmt.Sprintf("caller %s (%s) got error %q although its response was sent on a live connection; another session of the client had been reset meanwhile", c.Name, sessOf[c.Name], clipStr(c.Err, 200)), History: c})
+			case c.Xid != want:
+				r.Violate(&vc.Violation{Clause: "foreign-response", Shape: shape, Features: feat, Detail: fmt.Sprintf("caller %s received %q, its own response is %q", c.Name, c.Xid, want), History: c})
+			}
 		}
 	}
 }
